@@ -249,7 +249,10 @@ def main() -> int:
                         # of its own), and a sibling property sharing a title: each declaration keeps its own default
                         comps[key + "P"] = dict(schema)
                         other = [x for x in schema["enum"] if x != v] or schema["enum"]
-                        comps[key] = {"type": "object", "properties": {"p": sch, "q": dict(schema, title=f"T{key}", default=other[0]), "r": dict(schema, title=f"T{key}", default=schema["enum"][0])}}
+                        # (... and later siblings that declare none: an earlier declaration's default must not reach them)
+                        comps[key] = {"type": "object", "properties": {"p": sch, "q": dict(schema, title=f"T{key}", default=other[0]), "r": dict(schema, title=f"T{key}", default=schema["enum"][0]),
+                                                                        "s": dict(schema, title=f"T{key}"), "t": dict(schema)}}
+                        comps[key + "Z"] = {"type": "object", "properties": {"p": dict(schema), "u": dict(schema, title=f"T{key}")}}
                     elif route == "allof":
                         comps[key + "B"] = {"type": "object", "properties": {"p": dict(schema)}}
                         comps[key] = {"allOf": [{"$ref": f"#/components/schemas/{key}B"}, {"type": "object", "properties": {"p": sch}}]}
@@ -317,6 +320,11 @@ def main() -> int:
                     gotv = untag((x.get("attrs") or {}).get("p"))
                     if not same_typed(gotv, typed, le):
                         vd.violation(f"default_not_equal:{kind}:{cls}:{route}", f"{kind} default {v!r} ({route}): attribute is {gotv} expected {typed}", w)
+                    if route == "shared_enum_name":
+                        for sib_ in ("s", "t"):
+                            ev.count("undeclared_default_siblings")
+                            if sib_ in (x.get("e") or {}):
+                                vd.violation(f"undeclared_default_appears:{kind}:{route}", f"{kind}: sibling property {sib_!r} declares no default but the omitted argument encodes as {(x.get('e') or {}).get(sib_)!r} (an earlier declaration of the same enum class has a default)", w)
                     enc = (x.get("e") or {}).get("p", "<absent>")
                     if not expect.jeq(enc, wire_json(typed)) and not (typed[0] == "datetime" and isinstance(enc, str) and same_typed(("datetime", enc), typed, le)):
                         vd.violation(f"default_encodes_differently:{kind}:{cls}:{route}", f"{kind} default {v!r} ({route}): omitted argument encodes as {enc!r} expected {wire_json(typed)!r}", w)
